@@ -129,6 +129,43 @@ def run(ctx):
                     sig = "to_cirq:relative-sector-sign:spinbroken-even-N-sz-changing-operator"
             ctx.disagree(sig, f"to_cirq(O psi) != JW(O) to_cirq(psi) on {bad} amplitudes", ds)
 
+    # ---- linear binary codes, several codes in one interpreter (accelerated path; the reference path ignores the
+    #      argument — a recorded finding of C04) ---------------------------------------------------------------
+    if ctx.path == "C":
+        from openfermion import bravyi_kitaev_code, parity_code, jordan_wigner_code
+        for case in range(4 if quick else 30):
+            norb = rng.choice([2, 3])
+            nq = 2 * norb
+            wk = rng.choice(["single", "multi", "spinbroken"])
+            w = C01.make_wfn(ctx, wk, norb, rng)
+            entries = U.wfn_entries(w)
+            order = [("bk", bravyi_kitaev_code(nq)), ("parity", parity_code(nq)), ("jw", jordan_wigner_code(nq)),
+                     ("parity", parity_code(nq)), ("bk", bravyi_kitaev_code(nq))]
+            rng.shuffle(order)
+            for cname, code in order:
+                enc = numpy.asarray(code.encoder.todense()) % 2
+                cols = [int(sum(int(enc[q, m]) << (nq - 1 - q) for q in range(nq))) for m in range(nq)]
+                t = d.ask(f"tocirq_code {norb} {' '.join(map(str, cols))} {fmt_vec(entries)}").split()
+                want = {int(t[1 + 3 * i]): complex(float(Fraction(t[2 + 3 * i])), float(Fraction(t[3 + 3 * i]))) for i in range(int(t[0]))}
+                desc = {"wfn": wk, "norb": norb, "code": cname, "sectors": sorted(w.sectors()), "sequence": [c for c, _ in order]}
+                try:
+                    v = fqe.to_cirq(w, binarycode=code)
+                except Exception as exc:
+                    ctx.disagree(f"to_cirq-code-raises:{type(exc).__name__}", str(exc)[:200], desc)
+                    continue
+                ctx.case(("code", case, cname))
+                ctx.count(f"code:{cname}")
+                if not all(v[i] == want.get(i, 0) for i in range(2 ** nq)):
+                    ctx.disagree("to_cirq:binary-code", f"export under the {cname} code differs from the linear-code model "
+                                 f"(codes used in this interpreter so far: {desc['sequence']})", desc)
+                    continue
+                try:
+                    back = fqe.from_cirq(v, thresh=0.5, binarycode=code)
+                    got = {k: z for k, z in U.wfn_dict(back).items() if z != 0}
+                    if got != {(a, b): c for a, b, c in entries}:
+                        ctx.disagree("from_cirq:binary-code-roundtrip", f"round trip under the {cname} code fails", desc)
+                except Exception as exc:
+                    ctx.disagree(f"from_cirq-code-raises:{type(exc).__name__}", str(exc)[:200], desc)
     # ---- import of arbitrary vectors: sector detection at the threshold ---------------------
     for case in range(40 if quick else 400):
         norb = rng.choice([1, 2, 2, 3])
